@@ -230,16 +230,30 @@ func (w *world) newProcOn(kind, repo string) *proc {
 	st := w.stores[repo]
 	cl := st.NewClient(p, w.cfg.Conns, w.cfg.Atomic)
 	ctx, cancel := context.WithCancel(context.Background())
-	cl.OnCrash = cancel
+	var extra []*simbe.Client
+	cl.OnCrash = func() {
+		cancel()
+		for _, e := range extra {
+			e.Dead = true
+		}
+	}
 	reg := location.NewRegistry()
 	reg.Register(location.NewLimitedBackendFactory[simCfg, *simbe.Client]("sim",
 		func(s string) (*simCfg, error) { return &simCfg{Name: s}, nil },
 		location.NoPassword,
 		func(_ context.Context, cfg simCfg, _ limiter.Limiter, _ func(string, ...any)) (*simbe.Client, error) {
-			return w.clientFor(p, cfg.Name, cl), nil
+			c := w.clientFor(p, cfg.Name, cl)
+			if c != cl {
+				extra = append(extra, c)
+			}
+			return c, nil
 		},
 		func(_ context.Context, cfg simCfg, _ limiter.Limiter, _ func(string, ...any)) (*simbe.Client, error) {
-			return w.clientFor(p, cfg.Name, cl), nil
+			c := w.clientFor(p, cfg.Name, cl)
+			if c != cl {
+				extra = append(extra, c)
+			}
+			return c, nil
 		}))
 	term := &simTerm{}
 	g := global.Options{
@@ -263,7 +277,7 @@ func (w *world) clientFor(p *simrt.Proc, cfg string, main *simbe.Client) *simbe.
 		return main
 	}
 	c := st.NewClient(p, w.cfg.Conns, w.cfg.Atomic)
-	c.CrashAt = 0
+	c.F = main.F
 	return c
 }
 
